@@ -121,9 +121,20 @@ func runRawRecvScenario(c *Ctx, kind int, nops int) {
 				look()
 			}
 		default:
-			n := c.R.Pick(0, 1, 2, 3)
-			e.SetOpt(0, mangos.OptionReadQLen, fmt.Sprint(n), n)
-			look()
+			// A queue-length change wakes every receiver that holds a message at once; each drops it and reads on.  With
+			// unread input on more than one connection the order in which they refill the new queue is a scheduling race
+			// the sequential machine does not decide, so the operation is issued only while at most one pipe has any.
+			unread := 0
+			for _, p := range pipes {
+				if e.pipes[p] != nil && e.pipes[p].Backlog() > 0 {
+					unread++
+				}
+			}
+			if unread <= 1 {
+				n := c.R.Pick(0, 1, 2, 3)
+				e.SetOpt(0, mangos.OptionReadQLen, fmt.Sprint(n), n)
+				look()
+			}
 		}
 	}
 	e.Finish()
